@@ -34,6 +34,8 @@ var c10Boundary = []string{
 	"user-21702732", "user-24376093", "user-35154380", "user-87116634", // around 99%
 }
 
+var c10Escaped = []string{"team%2Bqa", "team+qa", "ops%40example.com", "ops@example.com", "a+b", "a%20b", "%41", "A", "%", "%zz", "100%25"}
+
 var c10Adversarial = []string{"a", "0", "u1", "user-1", "USER_1", "x.y~z", "00000000", "ffffffff", "kamal-rollout", "true", "1e9", strings.Repeat("z", 200)}
 
 func c10Value(rng *rand.Rand) string {
@@ -108,6 +110,11 @@ func c10Gen(rng *rand.Rand, idx int, thorough bool) c10Scenario {
 		}
 		for i := 0; i < rng.IntN(6); i++ {
 			sc.Allow = append(sc.Allow, sc.Values[rng.IntN(len(sc.Values))])
+		}
+		// values that look like something else when "decoded": the value is the bytes of the cookie
+		sc.Values = append(sc.Values, c10Escaped...)
+		if idx%2 == 0 {
+			sc.Allow = append(sc.Allow, "team%2Bqa", "ops@example.com", "a+b")
 		}
 	}
 	return sc
@@ -256,6 +263,10 @@ func c10Run(t *testing.T, run *Run, sc c10Scenario, rng *rand.Rand) {
 						return
 					}
 					continue
+				}
+				if p == 0 && s == "r" && !hostile {
+					fail("included-at-0-percent", "value %q is not on the allowlist %v, yet at 0%% it went to the rollout targets", v, sc.Allow)
+					return
 				}
 				if s == "r" && first[v] < 0 {
 					first[v] = p
